@@ -214,13 +214,14 @@ pub fn run_child(mut cmd: std::process::Command, stdin: &[u8], secs: u64) -> Res
     let mut so = ch.stdout.take().unwrap();
     let rd = std::thread::spawn(move || {
         let mut buf = Vec::new();
-        // keep at most 1 MiB of output, drain the rest
+        // keep at most 16 MiB of output (a child echoes its request line, which can be several MB),
+        // drain the rest
         let mut chunk = [0u8; 65536];
         loop {
             match so.read(&mut chunk) {
                 Ok(0) | Err(_) => break,
                 Ok(n) => {
-                    if buf.len() < (1 << 20) {
+                    if buf.len() < (16 << 20) {
                         buf.extend_from_slice(&chunk[..n]);
                     }
                 }
@@ -1678,6 +1679,13 @@ pub fn gen(tier: Tier, r: &mut Rng, emit: &mut dyn FnMut(String)) {
     for _ in 0..scale(3000, 60_000) {
         let p = crate::c30::program_soup(r);
         emit(format!("C19 jqp {}", hex_bytes(p.as_bytes())));
+    }
+    // truncated escapes followed by end of input / multi-byte characters, in every string context
+    let esc = crate::c30::escape_programs();
+    for (i, p) in esc.iter().enumerate() {
+        if !q || i % 2 == 1 {
+            emit(format!("C19 jqp {}", hex_bytes(p.as_bytes())));
+        }
     }
     for i in 0..scale(8, 200) {
         let p = crate::c30::program_soup(r);
